@@ -1,24 +1,20 @@
-/* up to 16 rows of 64*blocks bytes each, set up by the harness (a quantified requires cannot
- * make row pointers valid).  As in compress_chunks_parallel / compress_parents_parallel the
- * rows are consecutive slices of one buffer that has exactly num_inputs*64*blocks bytes;
- * out has exactly 32*num_inputs bytes */
+/* 16 rows of exactly 64*blocks bytes each, allocated by the harness (a quantified requires
+ * cannot make row pointers valid); only the first num_inputs <= 16 are passed;
+ * out has 32*16 bytes, of which only out[0..32*num_inputs) is assignable */
 #define HARNESS_HASH_MANY(F)                                                             \
   void harness(void) {                                                                   \
     VERIF_HAVOC_GLOBALS();                                                               \
     const uint8_t *rows[16];                                                             \
     size_t num_inputs, blocks;                                                           \
     __CPROVER_assume(num_inputs <= 16 && blocks <= VERIF_MAX_OBJ / 64);                  \
-    __CPROVER_assume(blocks <= VERIF_MAX_OBJ / 64 / 16);                                 \
-    uint8_t *base = malloc(num_inputs * 64 * blocks);                                    \
-    __CPROVER_assume(base != NULL);                                                      \
     for (size_t i = 0; i < 16; i++) {                                                    \
-      if (i < num_inputs) {                                                              \
-        rows[i] = base + i * 64 * blocks;                                                \
-      }                                                                                  \
+      uint8_t *r = malloc(64 * blocks);                                                  \
+      __CPROVER_assume(r != NULL);                                                       \
+      rows[i] = r;                                                                       \
     }                                                                                    \
     uint32_t key[8];                                                                     \
-    uint8_t *out = num_inputs ? malloc(32 * num_inputs) : NULL;                          \
-    __CPROVER_assume(num_inputs == 0 || out != NULL);                                    \
+    /* 512 = 32*16 bytes; writes beyond out[0..32*num_inputs) violate the assigns clause */ \
+    uint8_t out[512];                                                                    \
     uint64_t counter;                                                                    \
     bool increment_counter;                                                              \
     uint8_t flags, flags_start, flags_end;                                               \
